@@ -105,6 +105,15 @@ PROP = dict(
         "blocks between Writes while the harness uses the same object and requires the solo result at that point (deterministic: the serialising "
         "call is provably in progress); readers failing at the k-th Read, once, or returning one byte per Read, over a shared source buffer. "
         "Whether a swallowed stream error is acceptable is not asked here (C07)",
+        "exponent / scalar arguments: besides small, full, wide and negative-full, every Exp / ExpGLV / CyclotomicExp / ScalarMultiplication "
+        "family (fields, extension towers of the small fields, GT, G1/G2/Edwards points) runs the boundary set {0, 1, -1, two distinct one-word "
+        "negatives, small, 2^63, -2^63, 2^64-1, -(2^64-1), 2^64, full, -full, wider than the modulus}, each exponent a shared big.Int of its own "
+        "under the group-wide purity check, and after every call users of the process-wide big.Int pool from the OTHER packages run (SetString / "
+        "Text / String / SetBigInt / UnmarshalJSON of small values and one-word negative Exp in fr and fp), so that a temporary aliasing the "
+        "caller's exponent and leaked into field/pool is written to before the check",
+        "slice arguments come as prefixes of larger arrays: every drawn byte string, every shared vector of field elements or points, every "
+        "encoded blob and decoder input has spare capacity whose tail holds a sentinel pattern, dst and msg of the hash-to-field/curve entries sit "
+        "next to each other in one record (dst first), and argument snapshots cover len..cap of every flat slice (results are digested up to len only)",
         "goroutine scheduling is the only input not controlled by the rapid seed; a race needing an interleaving the runtime does not "
         "produce under the varied g / GOMAXPROCS / yields / -race instrumentation can be missed; timing is never used as a signal",
         "shared inputs are a deterministic function of VERIF_SEED (SHA-256 counter stream); ECDSA signatures are produced once with the "
@@ -118,7 +127,8 @@ PROP = dict(
         "the portable Go kernels are instrumented (small fields + misc in full, bn254 reduced in quick; all four curves reduced in thorough)",
         "every entry point is also exercised deterministically (sweep): 3 interleaved sequential calls and 4 concurrent goroutines x 2 calls",
     ],
-    mandatory_all=["writer:fails_at_k", "writer:fails_once", "writer:short_write", "writer:slow_with_concurrent_use",
+    mandatory_all=["arg:spare_capacity_sentinel", "exp:boundary_exponents", "exp:negative_one_word", "exp:negative_one_word/field",
+                   "exp:negative_one_word/tower", "exp:negative_one_word/gt", "exp:negative_one_word/point", "writer:fails_at_k", "writer:fails_once", "writer:short_write", "writer:slow_with_concurrent_use",
                    "reader:fails_at_k", "reader:fails_once", "reader:one_byte", "decode_pool"] + ["decode:" + c for c in (
         "valid", "x_eq_p", "x_gt_p", "last_eq_p", "all_ones", "all_zero", "inf_dirty", "off_curve", "not_in_subgroup",
         "trunc_1", "trunc_half", "long_1", "empty", "flag_0", "flag_1", "flag_2", "flag_3", "flag_4", "flag_5", "flag_6", "flag_7")] + [
